@@ -23,10 +23,13 @@ def tokens_text(toks):
 def make_schema():
     from whoosh import fields, analysis
     ana = analysis.RegexTokenizer(r"\S+") | analysis.StopFilter(stoplist=[GAPWORD], minsize=1, renumber=False)
+    # the title analyzer also breaks words at hyphens (no generated document contains one; a query word
+    # like "a-b" becomes several tokens there - the parser's multitoken_query handling, C16)
+    ana2 = analysis.RegexTokenizer(r"[^\s-]+") | analysis.StopFilter(stoplist=[GAPWORD], minsize=1, renumber=False)
     return fields.Schema(
         key=fields.ID(stored=True, unique=True),
         body=fields.TEXT(analyzer=ana, phrase=True, stored=False),
-        title=fields.TEXT(analyzer=ana, phrase=True, stored=False),
+        title=fields.TEXT(analyzer=ana2, phrase=True, stored=False),
         num=fields.NUMERIC(int, bits=32, signed=True, stored=True),
     )
 
